@@ -53,6 +53,9 @@ def run(ctx: Context) -> None:
     ctx.rule(r1_r2_table, order)
     ctx.rule(r2_exception_classes)
     ctx.rule(r3_grid)
+    # a search space is a function of its own specification: the module keeps nothing between constructions (module-state rule of C05, kept to search_space.py)
+    from . import c18
+    ctx.rule(c18.no_shared_tables, "black_it/search_space.py")
 
 
 def documented_order(ctx: Context) -> list[str]:
